@@ -1,9 +1,9 @@
 #!/bin/sh
-# run every registered check (tier $1, default quick), 4 at a time; summary on stdout. REPO (default /repo) is the tree checked.
+# run every registered check (or those named in $PROPS) (tier $1, default quick), 4 at a time; summary on stdout. REPO (default /repo) is the tree checked.
 T="${1:-quick}"
 cd "$(dirname "$0")"
 [ -n "$REPO" ] && export VERIF_REPO="$REPO"
 L=$(mktemp -d)
 ./check C08 quick >/dev/null 2>&1 || true   # builds the engine once
-jq -r '.checks[].property_id' MANIFEST.json | xargs -P 4 -I{} sh -c "./check {} $T > $L/{}.log 2>&1; echo {} exit=\$?"
+{ if [ -n "$PROPS" ]; then echo $PROPS | tr ' ' '\n'; else jq -r '.checks[].property_id' MANIFEST.json; fi; } | xargs -P 4 -I{} sh -c "./check {} $T > $L/{}.log 2>&1; echo {} exit=\$?"
 cat $L/C*.log; rm -rf $L
